@@ -61,6 +61,7 @@ type Scenario struct {
 	Pad       int      `json:"pad"`
 	Cuts      int      `json:"cuts"`   // -1 all, 0 none, n>0: at most n sampled cuts per run
 	Follow    int      `json:"follow"` // percentage of crash images that get a follow-up command-line compaction
+	Faults    int      `json:"faults"` // how many fault placements (I/O error at one temp-file operation) are tried after the clean run
 	Config    bool     `json:"config"` // chronicler built with NewV2WithConfig(block, threshold) instead of NewV2WithName
 	Seed      int64    `json:"seed"`
 }
@@ -210,10 +211,12 @@ func copyFile(src, dst string) {
 // recorder: the temp-file operations of one compaction run
 
 type opRec struct {
-	Kind string
-	Off  int64
-	Data []byte
-	Ex   bool // the temp file existed when the operation was announced
+	Kind    string
+	Off     int64
+	Data    []byte
+	Ex      bool // the temp file existed when the operation was announced
+	Failed  bool // an injected fault: the hook returned an error instead of letting the operation happen
+	Applied int  // ... after writing this many bytes of it itself (short write)
 }
 
 type recorder struct {
@@ -224,10 +227,12 @@ type recorder struct {
 	beforeTempEx       bool
 	beforeIdx          [][2]int
 	beforeErr          bool
+	failAt             int // index of the operation that fails (-1: none)
+	failShort          bool
 }
 
 func newRecorder(mainPath string) *recorder {
-	return &recorder{mainPath: mainPath, tempPath: mainPath + ".compact"}
+	return &recorder{mainPath: mainPath, tempPath: mainPath + ".compact", failAt: -1}
 }
 
 func (r *recorder) hook(kind string, f *os.File, path string, data []byte) error {
@@ -244,9 +249,22 @@ func (r *recorder) hook(kind string, f *os.File, path string, data []byte) error
 	if f != nil && kind == "write" {
 		off, _ = f.Seek(0, io.SeekCurrent)
 	}
-	r.ops = append(r.ops, opRec{Kind: kind, Off: off, Data: append([]byte{}, data...), Ex: exists(r.tempPath)})
-	return nil
+	op := opRec{Kind: kind, Off: off, Data: append([]byte{}, data...), Ex: exists(r.tempPath)}
+	var ret error
+	// (the results of the remove and close announcements are ignored by the code under test: no fault there)
+	if len(r.ops) == r.failAt && (kind == "create" || kind == "write" || kind == "sync" || kind == "rename") {
+		op.Failed = true
+		if kind == "write" && r.failShort && f != nil && len(data) > 1 {
+			op.Applied = len(data) / 2
+			f.Write(data[:op.Applied])
+		}
+		ret = errInjected
+	}
+	r.ops = append(r.ops, op)
+	return ret
 }
+
+var errInjected = fmt.Errorf("verif: injected I/O error")
 
 func (r *recorder) install() {
 	verifhook.SetFileOp(func(kind string, f *os.File, path string, data []byte) error { return r.hook(kind, f, path, data) })
@@ -255,7 +273,7 @@ func uninstall() { verifhook.SetFileOp(nil) }
 
 func (r *recorder) renamed() bool {
 	for _, o := range r.ops {
-		if o.Kind == "rename" {
+		if o.Kind == "rename" && !o.Failed {
 			return true
 		}
 	}
@@ -263,7 +281,7 @@ func (r *recorder) renamed() bool {
 }
 func (r *recorder) wroteTemp() bool {
 	for _, o := range r.ops {
-		if o.Kind == "create" || o.Kind == "write" {
+		if (o.Kind == "create" || o.Kind == "write") && !(o.Failed && o.Applied == 0) {
 			return true
 		}
 	}
@@ -278,11 +296,19 @@ type absState struct {
 	opened bool
 	fresh  bool
 	pend   []byte // a complete block header whose payload has not been written yet
-	torn   int // 1: a block header is incomplete, 2: a block's payload is incomplete
+	torn   int    // 1: a block header is incomplete, 2: a block's payload is incomplete
 }
 
 // apply operation o (only the first n bytes of its data when n >= 0) and emit the spec-level events
 func (st *absState) apply(o opRec, n int, emit func(ev)) {
+	if o.Failed {
+		if o.Kind != "write" || o.Applied == 0 {
+			return // the operation did not happen
+		}
+		if n < 0 || n > o.Applied {
+			n = o.Applied
+		}
+	}
 	full := n < 0 || n >= len(o.Data)
 	if st.ex && !o.Ex && o.Kind != "remove" {
 		// the file was removed without an announcement (a plain os.Remove)
@@ -385,6 +411,14 @@ func (im *images) apply(o opRec, n int) {
 	if im.temp.ex && !o.Ex && o.Kind != "remove" {
 		im.temp = fileImg{}
 	}
+	if o.Failed {
+		if o.Kind != "write" || o.Applied == 0 {
+			return
+		}
+		if n < 0 || n > o.Applied {
+			n = o.Applied
+		}
+	}
 	switch o.Kind {
 	case "remove":
 		im.temp = fileImg{}
@@ -450,6 +484,7 @@ type scenarioRun struct {
 	main          string
 	images        int
 	follows       int
+	faults        int
 	brokenFollows int
 	harm          []string // places where the observed state differs from the reference map (reporting only)
 	ref           map[int]int
@@ -509,7 +544,7 @@ func (s *scenarioRun) emitRun(ri *runInfo, endObs func(e ev)) {
 	}
 	if ierr {
 		// the swamp file could not be read: no run starts
-		e := ev{"ev": "end", "res": "error"}
+		e := ev{"ev": "end", "res": "error", "reported": ""}
 		endObs(e)
 		tw.Emit(e)
 		return
@@ -614,7 +649,7 @@ func (s *scenarioRun) emitRun(ri *runInfo, endObs func(e ev)) {
 			im.apply(r.ops[i], -1)
 		}
 	}
-	e := ev{"ev": "end", "res": ri.res}
+	e := ev{"ev": "end", "res": ri.res, "reported": ""}
 	endObs(e)
 	tw.Emit(e)
 }
@@ -836,63 +871,107 @@ func (s *scenarioRun) run() {
 	s.issued = len(issued)
 	endObs := func(e ev) { s.observe(e, s.main, "after "+sc.EP+"/"+sc.Via) }
 
-	switch sc.EP {
-	case "cli", "api":
-		writeV2File(s.main, sc.Block, sc.Name, issued, sc.Pad)
-		s.applyRef(issued)
-		tempRec := s.placeStale()
-		tw.Emit(ev{"ev": "setup", "id": sc.ID, "main_ex": true, "hist": issued, "temp": tempRec})
-		pre, perr := loadIndexOf(s.main)
-		rec := newRecorder(s.main)
-		rec.install()
+	// one real entry-point call on the files at rest, recorded by rec; a panic of the code under test is an
+	// observation (result "panic"), not a driver failure
+	type outcome struct {
+		res        string
+		reported   string
+		loaded     [][2]int
+		haveLoaded bool
+	}
+	invoke := func(rec *recorder) (out outcome) {
 		var err error
 		compacted := false
-		switch sc.EP + "/" + sc.Via {
-		case "cli/swamp":
-			r := hcmd.VerifCompactSwamp(s.main, sc.Threshold, false)
-			err, compacted = r.Error, r.Compacted
-		case "cli/pool":
-			restore := silenceStdout()
-			rep := hcmd.VerifRunCompaction([]string{s.main}, sc.Threshold, 2)
-			restore()
-			compacted = rep.CompactedSwamps == 1
-			if rep.FailedSwamps > 0 {
-				err = fmt.Errorf("%v", rep.FailedDetails)
+		rec.install()
+		func() {
+			defer func() {
+				if r := recover(); r != nil {
+					out.res = "panic"
+					s.harm = append(s.harm, fmt.Sprintf("%s/%s panicked: %v", sc.EP, sc.Via, r))
+				}
+			}()
+			switch sc.EP + "/" + sc.Via {
+			case "cli/swamp":
+				r := hcmd.VerifCompactSwamp(s.main, sc.Threshold, false)
+				err, compacted = r.Error, r.Compacted
+			case "cli/pool":
+				restore := silenceStdout()
+				defer restore()
+				rep := hcmd.VerifRunCompaction([]string{s.main}, sc.Threshold, 2)
+				compacted = rep.CompactedSwamps == 1
+				if rep.FailedSwamps > 0 {
+					err = fmt.Errorf("%v", rep.FailedDetails)
+				}
+			case "api/compact":
+				var r *v2.CompactionResult
+				r, err = v2.NewCompactor(s.main, sc.Block, sc.Threshold).Compact()
+				compacted = r != nil && r.Compacted
+			case "api/force":
+				var r *v2.CompactionResult
+				r, err = v2.NewCompactor(s.main, sc.Block, sc.Threshold).ForceCompact()
+				compacted = r != nil && r.Compacted
+			case "api/ifneeded":
+				var r *v2.CompactionResult
+				r, err = v2.NewCompactor(s.main, sc.Block, sc.Threshold).CompactIfNeeded()
+				compacted = r != nil && r.Compacted
+			case "api/dir":
+				var rs map[string]*v2.CompactionResult
+				rs, err = v2.CompactDirectory(filepath.Dir(s.main), sc.Block, sc.Threshold)
+				if r := rs[s.main]; r != nil {
+					compacted = r.Compacted
+					if r.Error != nil {
+						err = r.Error
+					}
+				}
+			case "load/fromindex":
+				fr, e1 := v2.NewFileReader(s.main)
+				if e1 != nil {
+					err = e1
+					return
+				}
+				idx, nm, e2 := fr.LoadIndex()
+				total := int(fr.GetHeader().EntryCount)
+				fr.Close()
+				if e2 != nil {
+					err = e2
+					return
+				}
+				var r *v2.CompactionResult
+				r, err = v2.CompactFromIndex(s.main, sc.Block, nm, idx, total)
+				compacted = r != nil && r.Compacted
+			case "load/chron", "load/v2file":
+				c := s.newChron(base)
+				b := beacon.New()
+				c.Load(b)
+				out.loaded, out.haveLoaded = pairsOfBeacon(b), true
+				_ = c.Close()
+			default:
+				panic("unknown entry point " + sc.EP + "/" + sc.Via)
 			}
-		case "api/compact":
-			var r *v2.CompactionResult
-			r, err = v2.NewCompactor(s.main, sc.Block, sc.Threshold).Compact()
-			compacted = r != nil && r.Compacted
-		case "api/force":
-			var r *v2.CompactionResult
-			r, err = v2.NewCompactor(s.main, sc.Block, sc.Threshold).ForceCompact()
-			compacted = r != nil && r.Compacted
-		case "api/ifneeded":
-			var r *v2.CompactionResult
-			r, err = v2.NewCompactor(s.main, sc.Block, sc.Threshold).CompactIfNeeded()
-			compacted = r != nil && r.Compacted
-		case "api/dir":
-			var rs map[string]*v2.CompactionResult
-			rs, err = v2.CompactDirectory(filepath.Dir(s.main), sc.Block, sc.Threshold)
-			if r := rs[s.main]; r != nil {
-				compacted = r.Compacted
-				if r.Error != nil {
-					err = r.Error
+		}()
+		uninstall()
+		if out.res == "" {
+			out.res = classify(rec, err, compacted)
+			// what the entry point itself reported (the spec requires it to agree with what happened to the files)
+			if !out.haveLoaded {
+				switch {
+				case compacted:
+					out.reported = "compacted"
+				case err != nil:
+					out.reported = "error"
+				default:
+					out.reported = "skipped"
 				}
 			}
-		default:
-			panic("unknown entry point " + sc.EP + "/" + sc.Via)
 		}
-		uninstall()
-		res := classify(rec, err, compacted)
-		if (res == "compacted") != compacted {
-			s.notes = append(s.notes, fmt.Sprintf("result says compacted=%v but the operation log says %s", compacted, res))
-		}
-		s.emitRun(&runInfo{ep: sc.EP, rec: rec, res: res, preIdx: pre, preErr: perr}, endObs)
+		return out
+	}
 
-	case "load":
-		// a fragmented file at rest, then a server start (Load self-heal) or its compaction function
-		if sc.Via == "chron" {
+	switch sc.EP {
+	case "cli", "api", "load":
+		// a fragmented file at rest (written by the real writer or a real chronicler), an optional leftover temp
+		// file, then: the command-line tool / the Compactor API / a server start (Load self-heal)
+		if sc.EP == "load" && sc.Via == "chron" {
 			c := s.newChron(base)
 			for i := 0; i < len(issued); {
 				n := 1 + s.rng.Intn(25)
@@ -910,47 +989,71 @@ func (s *scenarioRun) run() {
 		}
 		s.applyRef(issued)
 		tempRec := s.placeStale()
+		main0, _ := os.ReadFile(s.main)
+		temp0, terr := os.ReadFile(s.main + ".compact")
 		tw.Emit(ev{"ev": "setup", "id": sc.ID, "main_ex": true, "hist": issued, "temp": tempRec})
-		pre, perr := loadIndexOf(s.main)
-		rec := newRecorder(s.main)
-		var loaded [][2]int
-		haveLoaded := false
-		var err error
-		compacted := false
-		rec.install()
-		if sc.Via == "fromindex" {
-			fr, e1 := v2.NewFileReader(s.main)
-			if e1 != nil {
-				panic(e1)
-			}
-			idx, nm, e2 := fr.LoadIndex()
-			total := int(fr.GetHeader().EntryCount)
-			fr.Close()
-			if e2 != nil {
-				panic(e2)
-			}
-			var r *v2.CompactionResult
-			r, err = v2.CompactFromIndex(s.main, sc.Block, nm, idx, total)
-			compacted = r != nil && r.Compacted
-		} else {
-			c := s.newChron(base)
-			b := beacon.New()
-			c.Load(b)
-			loaded, haveLoaded = pairsOfBeacon(b), true
-			_ = c.Close()
+		oneRun := func(rec *recorder) {
+			pre, perr := loadIndexOf(s.main)
+			out := invoke(rec)
+			s.emitRun(&runInfo{ep: sc.EP, rec: rec, res: out.res, preIdx: pre, preErr: perr}, func(e ev) {
+				endObs(e)
+				e["reported"] = out.reported
+				if out.haveLoaded {
+					// what this very Load put into the beacon is the server's view
+					e["srv"] = out.loaded
+					if !samePairs(out.loaded, s.refPairs()) {
+						s.harm = append(s.harm, fmt.Sprintf("Load with self-heal gave %v, written %v", out.loaded, s.refPairs()))
+					}
+				}
+			})
 		}
-		uninstall()
-		res := classify(rec, err, compacted)
-		s.emitRun(&runInfo{ep: "load", rec: rec, res: res, preIdx: pre, preErr: perr}, func(e ev) {
-			endObs(e)
-			if haveLoaded {
-				// what this very Load put into the beacon is the server's view
-				e["srv"] = loaded
-				if !samePairs(loaded, s.refPairs()) {
-					s.harm = append(s.harm, fmt.Sprintf("Load with self-heal gave %v, written %v", loaded, s.refPairs()))
+		clean := newRecorder(s.main)
+		oneRun(clean)
+		// the same run again with an I/O error (or a short write) injected at one operation on the temp file
+		if sc.Faults > 0 {
+			var cand []int
+			for i, o := range clean.ops {
+				if o.Kind == "create" || o.Kind == "write" || o.Kind == "sync" || o.Kind == "rename" {
+					cand = append(cand, i)
 				}
 			}
-		})
+			must := map[int]bool{}
+			for i := len(clean.ops) - 1; i >= 0 && len(must) < 4; i-- { // the last operations: final flush, header, fsync, rename
+				if o := clean.ops[i]; o.Kind == "write" || o.Kind == "sync" || o.Kind == "rename" {
+					must[i] = true
+				}
+			}
+			s.rng.Shuffle(len(cand), func(a, b int) { cand[a], cand[b] = cand[b], cand[a] })
+			var picks []int
+			for i := range must {
+				picks = append(picks, i)
+			}
+			for _, i := range cand {
+				if len(picks) >= sc.Faults {
+					break
+				}
+				if !must[i] {
+					picks = append(picks, i)
+				}
+			}
+			sort.Ints(picks)
+			saveCuts := s.sc.Cuts
+			s.sc.Cuts = 0
+			for _, k := range picks {
+				os.WriteFile(s.main, main0, 0o644)
+				if terr == nil {
+					os.WriteFile(s.main+".compact", temp0, 0o644)
+				} else {
+					os.Remove(s.main + ".compact")
+				}
+				tw.Emit(ev{"ev": "restart"})
+				rec := newRecorder(s.main)
+				rec.failAt, rec.failShort = k, s.rng.Intn(2) == 0
+				s.faults++
+				oneRun(rec)
+			}
+			s.sc.Cuts = saveCuts
+		}
 
 	case "inline", "close", "forced":
 		tr := &tracker{keys: map[int]bool{}, override: -1}
@@ -973,13 +1076,26 @@ func (s *scenarioRun) run() {
 		doRun := func(ep string, call func() error) {
 			rec := newRecorder(s.main)
 			rec.install()
-			err := call()
+			var err error
+			panicked := ""
+			func() {
+				defer func() {
+					if r := recover(); r != nil {
+						panicked = fmt.Sprint(r)
+					}
+				}()
+				err = call()
+			}()
 			uninstall()
-			if len(rec.ops) == 0 {
+			if len(rec.ops) == 0 && panicked == "" {
 				return // no compaction was attempted (below the thresholds): nothing observable happened
 			}
 			flushPending()
 			res := classify(rec, err, rec.renamed())
+			if panicked != "" {
+				res = "panic"
+				s.harm = append(s.harm, ep+" panicked: "+panicked)
+			}
 			s.emitRun(&runInfo{ep: ep, rec: rec, res: res}, endObs)
 		}
 		for i := 0; i < len(issued); {
@@ -1056,7 +1172,7 @@ func main() {
 			}()
 			s.run()
 		}()
-		b, _ := json.Marshal(map[string]any{"id": sc.ID, "images": s.images, "follows": s.follows, "harm": s.harm,
+		b, _ := json.Marshal(map[string]any{"id": sc.ID, "images": s.images, "follows": s.follows, "faults": s.faults, "harm": s.harm,
 			"notes": s.notes, "issued": s.issued})
 		out.Write(b)
 		out.WriteByte('\n')
